@@ -54,9 +54,11 @@ def convert_type_str(s: str, problem: Problem) -> model.types.Type:
     elif s == "up:real":
         return problem.environment.type_manager.RealType()
     elif "up:real[" in s:
+        str_lb = s.split("[")[1].split(",")[0]
+        str_ub = s.split(",")[1].split("]")[0]
         return problem.environment.type_manager.RealType(
-            lower_bound=fractions.Fraction(s.split("[")[1].split(",")[0]),
-            upper_bound=fractions.Fraction(s.split(",")[1].split("]")[0]),
+            lower_bound=None if "-inf" in str_lb else fractions.Fraction(str_lb),
+            upper_bound=None if "inf" in str_ub else fractions.Fraction(str_ub),
         )
     else:
         assert not s.startswith("up:"), f"Unhandled builtin type: {s}"
